@@ -17,7 +17,7 @@ TD64_MIN = -86399999913600000  # timedelta.min in ms
 TD64_MAX = 86399999913599999  # (timedelta.max - 1 day) in ms, kio's documented upper limit
 DT_MAX = 253402300799999  # 9999-12-31T23:59:59.999Z in ms
 STR_LENGTHS_SMALL = (0, 1, 2, 5, 126, 127, 128)
-STR_LENGTHS_BIG = (16383, 16384)
+STR_LENGTHS_BIG = (16383, 16384, 32767)  # 32767 = the most a legacy (int16-length) string can hold
 BYTES_LENGTHS_HUGE = (65537, 1048577)  # beyond typical chunking thresholds (64 KiB, 1 MiB)
 BIG_LABELS = tuple(f"len{n}" for n in STR_LENGTHS_BIG + BYTES_LENGTHS_HUGE)
 ARRAY_BOUNDARY_CELLS = ("n127", "n128")  # compact array length varint goes from one to two bytes
@@ -67,7 +67,7 @@ def pool_size(ktype: str, domain: str) -> int:
 
 def _pool_labels(ktype: str, domain: str) -> list[str]:
     if ktype in ("int8", "int16", "int32", "int64", "uint8", "uint16", "uint32", "uint64"):
-        return ["lo", "hi", "lo+1", "hi-1", "0", "1", "neg1_or_2", "rand"]
+        return ["lo", "hi", "lo+1", "hi-1", "0", "1", "neg1_or_2", "rand", "pow2"]
     if ktype == "float64":
         base = ["0.0", "-0.0", "1.5", "-big", "subnormal", "max", "rand"]
         return base + (["nan", "nan_payload", "inf", "-inf"] if domain == "wire" else [])
@@ -80,7 +80,7 @@ def _pool_labels(ktype: str, domain: str) -> list[str]:
     if ktype == "timedelta_i64":
         return ["0", "1", "-1", "2^53+1", "-(2^53+1)", "lo", "hi", "rand", "rand_big"]
     if ktype == "datetime_i64":
-        return ["0", "1", "999", "1000", "broker", "max", "rand", "rand_s", "dst_fold"]
+        return ["0", "1", "999", "1000", "broker", "max", "rand", "rand_s", "dst_fold", "y2038"]
     if ktype == "uuid":
         return ["rand", "one", "ff"]
     if ktype == "string":
@@ -96,6 +96,8 @@ def pool_value(rng: random.Random, ktype: str, label: str) -> object:
         return {
             "lo": lo, "hi": hi, "lo+1": lo + 1, "hi-1": hi - 1, "0": 0, "1": 1,
             "neg1_or_2": -1 if lo < 0 else 2, "rand": rng.randint(lo, hi),
+            # a power of two or its neighbour, either sign: where a narrower intermediate type or a byte-length boundary would show
+            "pow2": min(hi, max(lo, (1 if lo == 0 else rng.choice((1, -1))) * ((1 << rng.randrange(1, hi.bit_length() + 1)) + rng.choice((-1, 0, 1))))),
         }[label]
     if ktype == "float64":
         if label == "rand":
@@ -125,6 +127,7 @@ def pool_value(rng: random.Random, ktype: str, label: str) -> object:
             # within an hour of the end of daylight saving time 2021 in Europe (01:00 UTC) / the US (06:00 UTC): expressed in such a zone
             # the wall-clock time is ambiguous (PEP 495 fold), which must not matter anywhere
             "dst_fold": rng.choice((1635642000000, 1636264800000)) + rng.randint(-3599999, 3599999),
+            "y2038": rng.choice((2**31, 2**32)) * 1000 + rng.choice((-1001, -1000, -1, 0, 1, 999, 1000)),  # where 32-bit seconds run out
         }[label]
     if ktype == "uuid":
         if label == "rand":
